@@ -302,7 +302,11 @@ func (m *Manager) provisionNTE(event *DiscoveryEvent) *ProvisioningResult {
 		}
 	}
 
-	// Allocate VLAN for new NTE
+	// Allocate VLAN for new NTE. The allocator returns the pair the NTE already
+	// holds if there is one (a re-discovery processed before the Nexus cache has
+	// caught up with an earlier successful provisioning); such a pair is in use
+	// and must survive a failed save below.
+	_, hadVLAN := m.vlanAlloc.Get(event.SerialNumber)
 	vlanAlloc, err := m.vlanAlloc.Allocate(event.SerialNumber)
 	if err != nil {
 		return &ProvisioningResult{
@@ -329,8 +333,10 @@ func (m *Manager) provisionNTE(event *DiscoveryEvent) *ProvisioningResult {
 
 	// Save NTE to Nexus
 	if err := m.nexusClient.SaveNTE(ctx, nte); err != nil {
-		// Rollback VLAN allocation
-		m.vlanAlloc.Release(event.SerialNumber)
+		// Rollback the VLAN allocation made by this attempt
+		if !hadVLAN {
+			m.vlanAlloc.Release(event.SerialNumber)
+		}
 		return &ProvisioningResult{
 			NTEID:   event.SerialNumber,
 			Success: false,
